@@ -14,7 +14,7 @@ PROPS = {
         "rule": "planted chain complexes C_0 -> ... -> C_L (L = 1..4, dims 0..8 quick / 0..14, zero-dimensional corners) built as d_i = P_{i+1}^-1 E_i P_i with random unimodular P_i and planted diagonals mixing units and "
                 "torsion from a per-ring palette (2,3,4,6,12,5,9, random and 64-200-bit elements, products) over BigInt, i64, i128, Ratio<i64|BigInt>, FF2, FF<3>, FF<5>, Gauss/Eisenstein over i64|BigInt, Poly<x,Q>, Poly<x,F3>; "
                 "route 1 GenericChainComplex::generate(..).homology(): rank = n - r_in - r_out, torsion ~ non-unit invariant factors of d_in (own SNF), every generator is a cycle, vectorize(gen k) = e_k, boundaries have zero coordinates mod torsion; "
-                "route 2 HomologyCalc::calculate on a middle pair: rank, torsion, d_out*B = 0, F*B = I, F*d_in = 0 mod torsion by oracle products; non-trivial = torsion present or both neighbouring ranks >= 1; distinct = hash of the differentials",
+                "route 2 HomologyCalc::calculate on a middle pair: rank, torsion, d_out*B = 0, F*B = I, F*d_in = 0 mod torsion by oracle products; non-trivial = torsion present or both neighbouring ranks >= 1; distinct = hash of the differentials Route 1c: homology assembled by hand on c.reduced() through the public Summand::merge (generators are cycles of the original complex, standard coordinates); vectorize_euc of every boundary is exactly zero.",
         "assumptions": COMMON_ASSUME + ["machine-integer rings may overflow in SNF: inconclusive", "polynomial complexes over Q are kept <= 4-dimensional (coefficient growth)"],
         "technique": "reference-model monitor: planted complexes with homology known by construction; rank/torsion/generators/coordinate maps judged by the oracle's dense arithmetic and textbook SNF",
         "level_text": "Exploration: tens to hundreds of thousands of planted complexes over 14 Euclidean rings; the answer is known by construction and re-derived by an independent SNF, generators and coordinate maps are re-multiplied exactly. Right level: input property with an exact oracle.",
@@ -44,7 +44,7 @@ PROPS = {
                 "(zero, sparse, dense, rank-deficient products, planted U*D*V with non-chained diagonals, diagonal inputs; entries from tiny to 2000-bit for arbitrary precision) x a random subset of the four transform flags; "
                 "checks: D diagonal, zeros last, normalised, d_i | d_{i+1}, diagonal ~ textbook SNF of A, ~ gcds of minors (<= 4x4), every product identity available for the returned transforms "
                 "(D=PAQ, PA=DQ^-1, AQ=P^-1D, A=P^-1DQ^-1, PP^-1=I, QQ^-1=I), lone transforms unimodular, rank()/factors() accessors, no panic on arbitrary-precision rings, hook step counters under a logical bound; "
-                "non-trivial = rank >= 2 or entries beyond 2^53; distinct = hash(matrix, flags)",
+                "non-trivial = rank >= 2 or entries beyond 2^53; distinct = hash(matrix, flags) Bulk accessors trans() / destruct() and snf_in_place agree with the single accessors and with snf.",
         "assumptions": COMMON_ASSUME + [
             "machine-integer rings may overflow inside LLL/SNF: counted as inconclusive (the property promises no panic only for arbitrary precision)",
             "termination is judged on hook step counters against 1000 + 200 (m+n)^2 (bits+16), never on wall-clock time",
@@ -61,7 +61,7 @@ PROPS = {
                 "lll: matrices with independent rows (checked by the oracle rank; 0 <= m <= n <= 8, incl. unimodularly skewed bases) over the same rings; checks: H = P A, P P^-1 = I, P^-1 H = A, P unimodular, "
                 "echelon shape (leading columns strictly increasing, zero rows last), pivots normalised, entries above a pivot of strictly smaller norm, #non-zero rows = oracle rank; B = P A, P unimodular, "
                 "size-reducedness (mu coordinates in the ring's division basis within [-1/2,1/2]) and Lovasz (alpha = 3/4, 2/3 for Eisenstein) by exact Gram-Schmidt over Q(sqrt D); hook step counters under a logical bound; "
-                "non-trivial = >= 2 rows and non-zero (HNF) / >= 2 rows and input not already reduced (LLL); distinct = hash(matrix, flags)",
+                "non-trivial = >= 2 rows and non-zero (HNF) / >= 2 rows and input not already reduced (LLL); distinct = hash(matrix, flags) A near-tie family (Gram-Schmidt coefficient a hair beside k + 1/2, Gram determinants 2^40..2^62) is mixed in for BigInt.",
         "assumptions": COMMON_ASSUME + [
             "machine-integer rings may overflow inside LLL: counted as inconclusive",
             "termination judged on hook iteration counters against 1000 + 64 (m+1)^2 (bits (n+1) + 16), never on time",
@@ -80,7 +80,7 @@ PROPS = {
                 "x {Rows, Cols} x {One, AnyUnit, Weight(1,2,3,5)} x rayon pool size {1,2,3,4,8,16} x schedule policy at the hooks {none, 0-300us sleep before the write lock, herd of k workers, yield storm}; "
                 "final-state oracle: distinct rows/columns, condition (hand-written unit tests per ring), triangular leading block by definition and through perms_by_pivots+permute, no panic; "
                 "trace monitor over hook events: commit indices contiguous, snapshot <= index, fresh row/column, every commit acyclic w.r.t. all earlier pivots (own DFS), no lost commit; "
-                "non-trivial = >= 2 rows reached the parallel phase; distinct = hash(matrix, commit order, type, condition)",
+                "non-trivial = >= 2 rows reached the parallel phase; distinct = hash(matrix, commit order, type, condition) One call in four goes through the public PivotFinder object instead of the free function.",
         "assumptions": COMMON_ASSUME + [
             "interleavings are sampled (OS scheduler + injected sleeps/herds/yields at the hook points), not enumerated; evidence reports retries, stale-snapshot commits and distinct commit orders actually observed",
             "deadlock is judged by an in-process quiescence watchdog (case running > 30 s, all worker threads sleeping, no CPU progress over 2 s), never by wall-clock alone",
@@ -99,7 +99,7 @@ PROPS = {
                 "Schur: M with a leading r x r such block, r from 0 to min(m,n) -> S = D - C A^-1 B (own substitution), F_tgt M B_src = S, F B = I on both sides, F_tgt M = S F_src, M B_src = B_tgt S; "
                 "dir_sum_decomp: scrambled block-diagonal integer matrices with empty rows/columns, with and without stored zeros -> permuted matrix (by definition of the returned permutations) = block sum padded with zeros, "
                 "block count = own connected-component count when no zeros are stored; all over rayon pools of 1,2,4,16 threads reused for short call histories, with hook-injected delays at column start; "
-                "rings i64, BigInt, Ratio<i64|BigInt>, FF<5>, FF<7>, GaussInt<i64>; non-trivial = >= 2 columns on one worker or n >= 2 (triangular), r >= 1 (Schur), >= 2 planted blocks (decomp)",
+                "rings i64, BigInt, Ratio<i64|BigInt>, FF<5>, FF<7>, GaussInt<i64>; non-trivial = >= 2 columns on one worker or n >= 2 (triangular), r >= 1 (Schur), >= 2 planted blocks (decomp) dir_sum_decomp on >1 thread is compared exactly with the value on a one-thread pool; skew family (one 17-60-entry column against 2-3-entry columns); dir_sum_indices and Schur::disassemble agree with the main routes.",
         "assumptions": COMMON_ASSUME + [
             "the scratch-vector residue reported by the ColDone hook is recorded as a diagnostic counter only; the verdict is the solved system itself (a residue that matters corrupts a later column on the same worker, which the product check sees)",
             "thread schedules are sampled; evidence reports the maximum number of columns one worker solved in a row",
@@ -114,7 +114,7 @@ PROPS = {
         "rule": "per scalar type (i32,i64,i128,BigInt, Ratio<i64|i128|BigInt>, FF2, FF<2,3,5,7,32749,46337,65537,2147483647>, QuadInt<i64|i128|BigInt,D> for D in -1,-3,2,-2,5,-7): "
                 "seeded histories of 5-30 steps on a pool of 4 values (boundary-biased magnitudes: 0,+-1, 2^31, 2^53, 2^63, 2^127 +-2, 64..2000-bit), each step one of +,-,*,neg in one of the "
                 "six operator forms (val/ref/assign), compared after every step with a BigInt-based model incl. canonical representation, ==, is_zero/is_one and Ord; "
-                "machine types must return the model value when representable and must fail (never wrap) otherwise; non-trivial = history of >= 5 steps; distinct = hash of the history",
+                "machine types must return the model value when representable and must fail (never wrap) otherwise; non-trivial = history of >= 5 steps; distinct = hash of the history Minimum exactness domain for machine rationals: an overflow panic is a violation when every intermediate of the common-denominator (lcm) algorithm is representable in the symmetric range, inconclusive otherwise.",
         "assumptions": COMMON_ASSUME + [
             "composite machine-integer types (Ratio<i64>, QuadInt<i64,D>) may overflow in an intermediate product although the result is representable: counted as inconclusive, not as violation",
             "BigInt (num-bigint) itself is additionally checked against residues modulo three 61-bit primes computed from decimal digits with u128 arithmetic",
@@ -130,7 +130,7 @@ PROPS = {
                 "seeded operand pairs (boundary-biased magnitudes 0..2^2000; related pairs: multiples, associates, common factors, equal, zero) -> division identity and Euclidean size of the remainder "
                 "(all operator forms), divides, gcd (divides both, greatest w.r.t. own Euclid, symmetric, normalised), gcdx (Bezout identity, d = gcd), lcm*gcd ~ a*b, is_unit <=> inv, a*inv = 1, "
                 "normalizing unit (unit, idempotent, constant on the enumerated unit orbit); plus exact nearest-integer rounding of div_round for the integer types incl. exact halves; "
-                "non-trivial = b does not divide a with size(b) >= 2, or an operand beyond 2^53; distinct = hash of the operand pair",
+                "non-trivial = b does not divide a with size(b) >= 2, or an operand beyond 2^53; distinct = hash of the operand pair div_round inputs include exact halves, near-halves and the double-rounding window of floating-point shortcuts (|b| ~ 2^49..2^54).",
         "assumptions": COMMON_ASSUME + [
             "machine-integer based composite types (Gauss/Eisenstein over i64/i128, Ratio<i64>, Poly over Ratio<i64>) may overflow in an intermediate: counted as inconclusive; the same rings over BigInt must never panic",
             "for Z[i], Z[omega] 'normalised' is judged convention-free (fixed point of normalisation + constant on the six/four associates); for Z, fields and K[x] additionally by the universal convention (non-negative, 1, monic)",
@@ -145,7 +145,7 @@ PROPS = {
         "rule": "boundary sweep of every length 0..64 plus seeded random histories of 10-200 operations over a pool of three "
                 "sequences (new, new_rev, zeros, ones, from_iter, parse, push, append, insert, remove, set, sub, is_sub, index, "
                 "cmp, generate, edit, from-array; lengths biased to 0,1,31..33,62..64, arguments at and one past each bound) "
-                "checked step by step against a Vec<bool> model; non-trivial = history reaches length >= 63; distinct = hash of the operation history",
+                "checked step by step against a Vec<bool> model; non-trivial = history reaches length >= 63; distinct = hash of the operation history Bit conversions and every operator form (set / set_0 / set_1, insert / insert_0 / insert_1, push*, +=).",
         "assumptions": COMMON_ASSUME + ["new_rev is only driven with val < 2^len (its behaviour on wider values is unspecified)"],
         "technique": "reference-model monitor: random operation histories on BitSeq judged step by step by a Vec<bool> model (valid ops must succeed, invalid ops must be rejected, all observables compared)",
         "level_text": "Exploration: hundreds of thousands of seeded operation histories plus a boundary sweep of every length 0..64 run against the real BitSeq; each step is decided by an executable list-of-booleans model. Right level because the property is a pure input/history property of a small value type: a model-based online monitor sees every wrong result at the step where it becomes observable.",
@@ -159,7 +159,7 @@ PROPS = {
                 "checks against own PD tools: components = strand orbits (partition), crossing signs = one of the orientations compatible with the under-strand rule (2^k choices for k over-only components), "
                 "writhe / signed numbers consistent and invariant under renumbering and reordering, negated by mirror, circles of every resolution state (all 2^n for n <= 9, 96 random above) = edge-identification count, "
                 "also after resolving one crossing first (diagram with history), Seifert circles = oriented resolution, is_knot, closure: #crossings = #letters, #components = #cycles, writhe = exponent sum, PD edge-bijective to the own geometric closure; "
-                "non-trivial = >= 2 components or kink / over-only component / split piece; distinct = hash(PD code, switched flags)",
+                "non-trivial = >= 2 components or kink / over-only component / split piece; distinct = hash(PD code, switched flags) Link::load / from_pd_code / edges / ori_pres_state against the stored code; chains of resolved_at in random order (i-th unresolved crossing).",
         "assumptions": COMMON_ASSUME + ["every generated diagram must pass the oracle's PD validator (2 ends per edge, coherent orientation, planarity by Euler characteristic); a rejected diagram is a generator fault, never a verdict"],
         "technique": "reference-model monitor: yui-link routines on table and derived diagrams judged by own union-find / orientation-propagation / state-circle counting and an own braid closure",
         "level_text": "Exploration: every shipped diagram plus tens of thousands of derived diagrams per run (millions of resolution states), each judged by an independent combinatorial model built from the raw PD code. Right level: input property with an exact, cheap oracle.",
@@ -174,7 +174,7 @@ PROPS = {
                 "x build configuration (default; explicit crossing absorption orders fed one crossing at a time through the public builder; auto_deloop/auto_elim on/off) x rayon pools of 1,2,4,16 threads; "
                 "oracle: definition-level cube of resolutions over Z built from the raw PD code, homology by own unit-pivot cancellation + textbook SNF (mod p for fields): rank and invariant factors per degree, and for h=t=0 the bigraded "
                 "table by both library routes; second opinion: the library's own first-generation engine (explicit cube, cargo feature `old`, separate process vh-old) on table diagrams with 3..10 (quick) / 11 crossings over Z, Q, F2, F3; "
-                "non-trivial = >= 3 crossings or >= 2 components or (h,t) != (0,0); distinct = hash(PD, ring, h, t, reduced, order, policy, threads)",
+                "non-trivial = >= 3 crossings or >= 2 components or (h,t) != (0,0); distinct = hash(PD, ring, h, t, reduced, order, policy, threads) Further public build paths: divide-and-conquer (two tangle complexes with their own degree shifts glued by TngComplex::connect), set_h_range before / during / after the build (judged strictly inside the range), KhHomology::truncated / KhComplex::truncated / h_range / q_range.",
         "assumptions": COMMON_ASSUME + [
             "oracle-checked diagrams are bounded by 10 crossings; larger diagrams are covered only through the relations of C02/C03",
             "polynomial parameters (H,T) are covered by composition with C05 (specialisation commutes) rather than by a polynomial oracle",
@@ -205,7 +205,7 @@ PROPS = {
                 "conjugation, Markov stabilisation/destabilisation of either sign) and table PD codes (<= 10 crossings) under 1-6 PD-level moves (edge relabelling, crossing permutation, global orientation reversal [a,b,c,d]->[c,d,a,b], "
                 "Reidemeister I kinks of the four kinds); rings i64, BigInt, Ratio<i64>, FF2, FF<3>; reduced for knots; pools of 1,4,16 threads; checks: bigraded table (homology of the bigraded pieces) of D = table of M.D; "
                 "table(mirror D) = free (i,j)->(-i,-j), torsion (i,j)->(1-i,-j); table of 'PD code of name N' = table of 'closure of braid word of name N' up to mirror; "
-                "soundness of the generator: both diagrams pass the oracle validator and have the same ORACLE bracket polynomial (else inconclusive); non-trivial = at least one move other than conjugation and >= 3 crossings; distinct = hash(D, M.D, reduced)",
+                "soundness of the generator: both diagrams pass the oracle validator and have the same ORACLE bracket polynomial (else inconclusive); non-trivial = at least one move other than conjugation and >= 3 crossings; distinct = hash(D, M.D, reduced) One moved diagram in six (<= 9 crossings) is built divide-and-conquer (TngComplex::connect).",
         "assumptions": COMMON_ASSUME + ["Reidemeister II/III are exercised at braid level (sigma sigma^-1 and the braid relation), Reidemeister I at both levels", "the two resource tables may follow different chirality conventions: equality is required only up to mirror there"],
         "technique": "metamorphic monitor: two real Khovanov computations related by generated isotopy moves / mirroring must agree; move generator validated against an independent bracket-polynomial oracle",
         "level_text": "Exploration of diagrams and move histories: thousands (quick) to hundreds of thousands of (diagram, move sequence, ring) tuples. The relation itself is the oracle; soundness rests on the generator, which is checked on every case by an independent invariant. Right level: the property quantifies over all move sequences, which can only be sampled.",
@@ -230,7 +230,7 @@ PROPS = {
         "rule": "diagrams as in C01 (<= 8 crossings quick / 10) x parameter rings K[H] (h=H,t=0), K[T] (h=0,t=T), K[H,T] for K in i64, Ratio<i64>, FF<2>, FF<3> x reduced (t=0) / unreduced x pools of 1,4,16 threads; "
                 "KhComplex::<R>::new(..).d_matrix(i) and the generator lists are exported term by term; checks with own polynomial arithmetic: matrix/generator sizes consistent, every generator of C_i has h-degree i, "
                 "every monomial c H^a T^b from x to y satisfies qdeg(y) - 2a - 4b = qdeg(x), d_{i+1} d_i = 0, and for 2 (quick) / 4 evaluation points (h0,t0) from {0,+-1,2,3}x{0,+-1,2,-2,3} the evaluated complex has the same homology "
-                "(own cancellation + SNF over Z incl. torsion; ranks via a 31-bit prime for Q; mod p for F_p) as KhHomology::new(l,h0,t0,reduced) over the matching ring; non-trivial = >= 3 crossings; distinct = hash(PD, flags, reduced)",
+                "(own cancellation + SNF over Z incl. torsion; ranks via a 31-bit prime for Q; mod p for F_p) as KhHomology::new(l,h0,t0,reduced) over the matching ring; non-trivial = >= 3 crossings; distinct = hash(PD, flags, reduced) One complex in three is built divide-and-conquer (two halves glued by TngComplex::connect).",
         "assumptions": COMMON_ASSUME + ["ranks over Q are computed modulo the prime 2^31-1 (a rank drop modulo that prime would show as a false alarm; none observed)", "non-PID rings have no homology oracle: d^2 = 0, grading and commutation with specialisation are what is checked there"],
         "technique": "reference-model monitor: exported differentials re-multiplied / re-graded / re-evaluated with own polynomial and modular arithmetic, evaluated complex compared with the directly built one",
         "level_text": "Exploration: thousands to hundreds of thousands of (diagram, parameter ring, variant) tuples; each of the three clauses (d^2=0, grading, specialisation) is decided exactly by independent arithmetic on the exported matrices. Right level: input/configuration property with exact, cheap judges.",
@@ -243,7 +243,7 @@ PROPS = {
                 "every generator in h-degree 0, d z = 0, and for h != 0 the class is non-torsion (rank[d_-1 | z] = rank d_-1 + 1 by own elimination modulo 2^31-1 on the exported matrices); "
                 "(b) links (table, split unions, switched crossings): homology with (h,t) = (1,0) over Z free of total rank 2^{#components}, with (0,1) over Q of total rank 2^{#components} (components counted by the oracle); "
                 "(c) ss_invariant for c = 2, 3 over i64, c = 2 over BigInt, c = H over F2[H], F3[H], Q[H]: reduced = unreduced, ss(mirror) = -ss, unchanged by 1-4 PD moves (relabel, permute, reverse, R1; bracket-checked), "
-                "ss(K-) <= ss(K+) <= ss(K-) + 2 for a random crossing of every diagram, 0 on kinked unknots; non-trivial = >= 3 crossings (or >= 2 components for (b)); distinct = hash of the diagram(s) and parameters",
+                "ss(K-) <= ss(K+) <= ss(K-) + 2 for a random crossing of every diagram, 0 on kinked unknots; non-trivial = >= 3 crossings (or >= 2 components for (b)); distinct = hash of the diagram(s) and parameters In the reduced theory half of the canonical-cycle cases mark a random edge as base point through the public TngComplexBuilder.",
         "assumptions": COMMON_ASSUME + ["absolute values of ss are pinned only for unknots; otherwise relations between real runs are checked", "for h = 0 a vanishing canonical cycle is legitimate (the property demands non-torsion only for h != 0)"],
         "technique": "reference-model + metamorphic monitor: canonical cycles checked on exported matrices with own modular rank; ss compared across isotopic diagrams, variants, mirror and crossing changes",
         "level_text": "Exploration: thousands to hundreds of thousands of knot diagrams, crossings and move sequences; cycle conditions are decided exactly, the s-invariant through the relations the statement lists. Right level: input/history/configuration property.",
@@ -255,7 +255,7 @@ PROPS = {
         "rule": "the 23 built-in strongly invertible PD codes, their mirrors, and the same codes with the crossings listed in random orders (sinv_knot_from_code); FF2 with (h,t) in {(0,0),(1,0),(0,1),(1,1)} (reduced only for t=0) "
                 "and F2[H] with (H,0); checks: d^2 = 0 (check_d_all), KhI ranks per degree = homology of the explicitly built Cone(1+tau) over F2 (own cube, tau induced on states and circle labels by e -> (n+1-e) mod n + 1; codes with <= 7 (quick) / 8 crossings), "
                 "symmetric construction without the involutive part = KhHomology::new of the underlying knot, over F2[H]: rank_i = dim Cone at H=1, rank_i + tors_i + tors_{i+1} = dim Cone at H=0, "
-                "ssi unchanged by the listing order, s0 <= s1, s0 = s1 mod 2, ssi(mirror) = (-s1,-s0), reduced = unreduced; distinct = hash(code order, mirror, h, t, reduced)",
+                "ssi unchanged by the listing order, s0 <= s1, s0 = s1 mod 2, ssi(mirror) = (-s1,-s0), reduced = unreduced; distinct = hash(code order, mirror, h, t, reduced) Windowed computation through SymTngBuilder::set_h_range equals the full complex inside the window.",
         "assumptions": COMMON_ASSUME + ["no generator of new strongly invertible diagrams exists: inputs are the built-in table under reordering and mirroring", "over F2[H] the cone comparison uses necessary conditions (dimensions at H=0 and H=1), all torsion being H-primary for these graded complexes"],
         "technique": "reference-model + metamorphic monitor: KhI computed by the library compared with an explicitly constructed mapping cone of 1+tau on an own F2 cube; ssi compared across listing orders, mirrors and variants",
         "level_text": "Exploration over the available symmetric diagrams x parameters x listing orders (thousands of runs): the cone definition is checked against an independent construction, the invariants through their stated relations. Right level given that the input family is a finite table plus reorderings.",
@@ -288,7 +288,7 @@ PROPS = {
                 "divide4 at arbitrary (non-square) split points with every block checked + combine_blocks, concat, stack, extend_cols, round trips through the dense container with swap / add_row_to / add_col_to, "
                 "dense +=, -=, *, matrix * vector, SpVec split / stack / subvec / permute / +,-, is_zero / iter_nz / shape, id * A, A + 0; after every operation all entries are compared with a dense model updated by the definition; "
                 "Trans histories of 2-10 steps (append, append_perm, merge, reduce, sub with arbitrary index lists incl. full-length reorderings and repetitions): forward_mat, backward_mat, forward(v), backward(w), dims compared with the "
-                "product of the factors after every step; non-trivial = program touches a stored zero or a zero dimension or has >= 10 ops (Trans: >= 3 steps); distinct = hash of the history",
+                "product of the factors after every step; non-trivial = program touches a stored zero or a zero dimension or has >= 10 ops (Trans: >= 3 steps); distinct = hash of the history Also: permutation matrices, extract, stack_vecs, from_sorted_entries, into_vec / into_mat, dense mul_row / mul_col / left_elementary / right_elementary.",
         "assumptions": COMMON_ASSUME + ["SpMat::is_id is not judged (it inspects stored entries only; not among the operations the property lists)", "machine-integer overflow in products is counted as inconclusive"],
         "technique": "reference-model monitor: random operation programs on SpMat/SpVec/Mat/Trans compared entry by entry with a dense model after every step",
         "level_text": "Exploration: hundreds of thousands of programs (millions of operations) with zero-sized shapes, stored zeros and non-square split points; every step is decided by a definition-level dense model. Right level: input/history property of container types with an exact oracle.",
@@ -302,7 +302,7 @@ PROPS = {
                 "products whose terms vanish in F_p); after every step: term set = model (BTreeMap<exponent vector, coeff> updated by definition), no stored zero coefficient, no stored zero exponent, nterms, is_zero, is_one, "
                 "lead_term = own graded-lex maximum, == agrees with model equality for values reached by different histories and for the value rebuilt from its terms; monomial orders on random (and related) quadruples: antisymmetry, reflexivity, "
                 "Equal <=> equal, transitivity, compatibility with multiplication, graded order compares total degree first; eval(p), eval(q), eval(p+q), eval(pq) against BigInt evaluation in 1-3 variables; "
-                "Lc<Free<i32>,R> histories (+, -=, scalar *=, neg, a-a); non-trivial = a cancellation occurred or >= 2 variables; distinct = hash of the history",
+                "Lc<Free<i32>,R> histories (+, -=, scalar *=, neg, a-a); non-trivial = a cancellation occurred or >= 2 variables; distinct = hash of the history Accessors after every step (coeff, coeff_for, const_term, is_const, lead_coeff, lead_deg, is_mono / as_mono, map_coeffs); Lc: combine with a non-injective product (Z[Z/3]), map_gens, filter_gens, apply, coeff.",
         "assumptions": COMMON_ASSUME + ["which variable a lexicographic order ranks first is a convention and is not judged; the order laws and the 'graded' rule are", "i64 coefficient overflow in products is counted as inconclusive"],
         "technique": "reference-model monitor: random operation histories on the polynomial / linear-combination types compared after every step with a BTreeMap model; order laws checked on sampled monomials; evaluation against BigInt",
         "level_text": "Exploration: hundreds of thousands of histories (quick) over 14 (monomial kind, coefficient ring) pairs; every observable of the statement is compared with an exact definition-level model after each step. Right level: input/history property of value types.",
